@@ -89,6 +89,10 @@ static Reg r_gis("geninv_series", [](const Args& a) {
   emit(hxs({G.tiny_, G.tol0_}) + " " + std::to_string(G.maxit2_) + " " + hxs({h.la1, h.la2, h.lon12, h.lon12e}) + " " + std::to_string(h.lonsign) + " " + std::to_string(h.swapp) + " " + std::to_string(h.latsign)
        + " " + hxs({h.slam12, h.clam12, h.s1, h.c1, h.s2, h.c2, r.sbet1, r.cbet1, r.sbet2, r.cbet2, r.dn1, r.dn2,
                     o.s12, o.salp1, o.calp1, o.salp2, o.calp2, o.m12, o.M12, o.M21, o.S12, o.a12, azi1, azi2}) + " " + std::to_string(br) + " " + std::to_string(numit));
+  // which part of GenInverse answered (coverage histogram of the evidence)
+  static const char* bn[] = {"meridional", "equatorial", "short-line", "newton"};
+  if (std::isfinite(o.a12)) stratum(std::string("branch-") + bn[br] + (br != 3 ? "" : numit <= 3 ? "-le3" : numit <= 19 ? "-le19" : numit < int(G.maxit2_) ? "-past-maxit1" : "-maxit2")
+    + (br == 0 && (h.la1 == -90 || h.slam12 == 0) ? "" : br != 0 && (h.la1 == -90 || h.slam12 == 0) ? "-meridian-rejected" : ""));
 });
 
 // geninv_kern S a f lat1 lon1 lat2 lon2 | tiny eps0 tolb c2 maxit2 guard  <head as above>  <reduced latitudes>  <10 outputs>
